@@ -895,6 +895,7 @@ fn run(ctx: &Ctx) -> ShardOut {
             }
             if ctx.expired() {
                 out.capped.push(format!("wall-clock cap: a shard stopped at program {} of {} (fact set {} of {}); its earlier (program, fact set) batches are complete", pi, plan.len(), fi, fsets.len()));
+                note_skips(&mut out);
                 return out;
             }
             let facts: Vec<Fact> = fs.iter().map(|i| universe[*i].clone()).collect();
@@ -906,7 +907,15 @@ fn run(ctx: &Ctx) -> ShardOut {
             }
         }
     }
+    note_skips(&mut out);
     out
+}
+
+/// A run that skipped goals is not exhaustive over the stated space: say so (same text in every shard).
+fn note_skips(out: &mut ShardOut) {
+    if out.counters.get("skipped_goals_over_step_cap").copied().unwrap_or(0) > 0 {
+        out.capped.push("step cap: goal shapes whose predicted SLD cost exceeds the step cap were not executed (left/doubly recursive blow-ups); see counters skipped_goals_over_step_cap / skipped_shapes_over_step_cap; every other goal of the stated space was executed".into());
+    }
 }
 
 fn replay(ctx: &Ctx, case: &Value) -> ShardOut {
